@@ -597,6 +597,18 @@ func (a *FA) lin(v ssa.Value, depth int) Lin {
 			return a.lin(x.X, depth+1).Neg()
 		}
 	case *ssa.Phi:
+		// a merge of one and the same value (a result variable assigned the same thing before every exit)
+		if !isLoopHeaderPhi(x) && len(x.Edges) > 0 && depth < 6 {
+			same := true
+			for _, e := range x.Edges[1:] {
+				if stripConv(e) != stripConv(x.Edges[0]) || !types.Identical(e.Type(), x.Edges[0].Type()) {
+					same = false
+				}
+			}
+			if same && types.Identical(x.Edges[0].Type(), x.Type()) {
+				return a.lin(x.Edges[0], depth+1)
+			}
+		}
 		// counters that move in lockstep (for src, dst := from, 0; ..; src, dst = src+1, dst+1) are one counter and an
 		// offset: every counter of a loop header is expressed through the first one with the same step
 		if isLoopHeaderPhi(x) && isIntType(x.Type()) {
@@ -1534,4 +1546,114 @@ func innermostLoop(b *ssa.BasicBlock) *ssa.BasicBlock {
 		}
 	}
 	return best
+}
+
+// GuardResolved: merged variables whose value at blk is known from a guard. A variable initialised to a constant and
+// assigned in one branch (`f, d := 0, 0; if c { f, d = ..., ... }; if f > 0 { use f, d }`) is a merge of the constant and
+// the computed value; under a dominating test that the constant fails, the merge is the computed value - and so are the
+// other variables merged at the same point (the same incoming edge was taken for all of them).
+func (a *FA) GuardResolved(blk *ssa.BasicBlock) map[*ssa.Phi]ssa.Value {
+	out := map[*ssa.Phi]ssa.Value{}
+	for _, cd := range a.Conds(blk) {
+		bo, ok := cd.V.(*ssa.BinOp)
+		if !ok {
+			continue
+		}
+		op, ok := tokOp(bo.Op)
+		if !ok {
+			continue
+		}
+		if !cd.Pol {
+			op = negOp(op)
+		}
+		for _, side := range [2]int{0, 1} {
+			pv, kv := bo.X, bo.Y
+			o := op
+			if side == 1 {
+				pv, kv = bo.Y, bo.X
+				o = mirrorOp(op)
+			}
+			p, isPhi := stripConv(pv).(*ssa.Phi)
+			k, isK := constInt64(stripConv(kv))
+			if !isPhi || !isK || isLoopHeaderPhi(p) || !p.Block().Dominates(blk) || !isIntType(p.Type()) {
+				continue
+			}
+			if _, narrowed := pv.(*ssa.Convert); narrowed && !types.Identical(pv.Type(), p.Type()) {
+				continue
+			}
+			feasible := -1
+			n := 0
+			for i, e := range p.Edges {
+				ek, isC := constInt64(stripConv(e))
+				if isC && !relHolds(ek, o, k) {
+					continue // this incoming edge cannot have been taken
+				}
+				feasible = i
+				n++
+			}
+			if n != 1 {
+				continue
+			}
+			for _, ins := range p.Block().Instrs {
+				q, ok := ins.(*ssa.Phi)
+				if !ok {
+					break
+				}
+				out[q] = q.Edges[feasible]
+			}
+		}
+	}
+	return out
+}
+
+func relHolds(x int64, op relOp, y int64) bool {
+	switch op {
+	case opLT:
+		return x < y
+	case opLE:
+		return x <= y
+	case opGT:
+		return x > y
+	case opGE:
+		return x >= y
+	case opEQ:
+		return x == y
+	}
+	return x != y
+}
+
+func mirrorOp(op relOp) relOp {
+	switch op {
+	case opLT:
+		return opGT
+	case opLE:
+		return opGE
+	case opGT:
+		return opLT
+	case opGE:
+		return opLE
+	}
+	return op
+}
+
+// SubstResolved rewrites a linear form with the guard-resolved values of the merged variables it mentions.
+func (a *FA) SubstResolved(L Lin, res map[*ssa.Phi]ssa.Value) Lin {
+	for round := 0; round < 3; round++ {
+		changed := false
+		for atom, cf := range L.T {
+			p, ok := a.AtomValue(atom).(*ssa.Phi)
+			if !ok || res[p] == nil {
+				continue
+			}
+			n := L.clone()
+			delete(n.T, atom)
+			L = n.addScaled(a.Lin(res[p]), cf)
+			changed = true
+			break
+		}
+		if !changed {
+			break
+		}
+	}
+	return L
 }
